@@ -13,6 +13,7 @@ import contextlib
 import gc
 import io
 import logging
+import warnings
 
 import onnx_ir as ir
 from onnx_ir import _core, _graph_containers
@@ -105,6 +106,16 @@ def _pristine() -> dict:
 
 
 PRISTINE = _pristine()
+PRISTINE_OBJECTS = {key: cls.__dict__.get(attr) for key, (cls, attr, _op, _t) in INSTRUMENTED.items()}
+
+
+def _force_pristine() -> None:
+    """After a reported violation: put the classes back so that later runs of this worker start clean."""
+    for key, (cls, attr, _op, _t) in INSTRUMENTED.items():
+        obj = PRISTINE_OBJECTS.get(key)
+        if obj is not None and cls.__dict__.get(attr) is not obj:
+            setattr(cls, attr, obj)
+    _jmod._current_journal = None
 
 
 def _compare_with(table: dict) -> str | None:
@@ -189,7 +200,11 @@ def gen_case(run_seed: int, tier: str, index: int = 0) -> dict:
     # (while the object is alive), 2 hook + the entries are read and displayed after the blocks
     consumer = r.choice([0, 1, 1, 2, 3])
     # consumer 3: the hook also raises once, on the k-th entry it sees (a fault in the user's observer)
-    return {"property": PROPERTY, "run_seed": run_seed, "ops": op_list, "plan": plan, "consumer": consumer, "hook_raises_at": r.choice([0, 1, 3, 8, 20])}
+    kr = Streams(run_seed).rng("interpreter-knobs")
+    # the interpreter treats warnings as errors (python -W error, the usual test-suite setting) in part of the runs;
+    # rarely the first journal also records a bulk of several thousand cheap operations before the history proper
+    knobs = {"warnings_error": kr.random() < 0.25, "bulk": kr.choice([3000, 10000, 12000]) if kr.random() < 0.012 else 0}
+    return {"property": PROPERTY, "run_seed": run_seed, "ops": op_list, "plan": plan, "consumer": consumer, "hook_raises_at": r.choice([0, 1, 3, 8, 20]), **knobs}
 
 
 def _read_entry(e) -> None:
@@ -225,7 +240,7 @@ class _HookFault(Exception):
     pass
 
 
-def run_journaled(op_list: list, plan: dict, stats: dict, consumer: int = 0, hook_raises_at: int = 0):
+def run_journaled(op_list: list, plan: dict, stats: dict, consumer: int = 0, hook_raises_at: int = 0, bulk: int = 0):
     """Returns (outcomes, violation, journals) — holds no reference to IR objects on return."""
 
     def inc(k, n=1):
@@ -280,18 +295,32 @@ def run_journaled(op_list: list, plan: dict, stats: dict, consumer: int = 0, hoo
                         stack.append(jr)
                         journals.append(jr)
                         inc("journal_enter")
+                        if bulk and consumer != 3:
+                            scratch_value = ir.Value(name="bulk")
+                            for k_ in range(bulk):
+                                scratch_value.name = "bulk_a" if k_ % 2 else "bulk_b"
+                            del scratch_value
+                            inc("bulk_journals")
+                            inc("bulk_entries", bulk)
+                            bulk = 0
                         inc(f"journal_depth_{len(stack)}")
                 elif stack:
                     jr = stack.pop()
                     if jr is None:
                         continue  # the matching enter was refused
-                    if ev == "exit":
-                        jr.__exit__(None, None, None)
-                        inc("journal_exit_normal")
-                    else:
-                        e = RuntimeError("thrown inside the journal block")
-                        swallowed = jr.__exit__(RuntimeError, e, None)
-                        inc("journal_exit_by_exception")
+                    swallowed = False
+                    try:
+                        if ev == "exit":
+                            jr.__exit__(None, None, None)
+                            inc("journal_exit_normal")
+                        else:
+                            e = RuntimeError("thrown inside the journal block")
+                            swallowed = jr.__exit__(RuntimeError, e, None)
+                            inc("journal_exit_by_exception")
+                    except Exception:  # noqa: BLE001
+                        # leaving may raise (a warning turned into an error, say); the classes must be back all the same
+                        inc("journal_exit_raised")
+                    if ev != "exit":
                         if swallowed and viol is None:
                             # a `with` statement re-raises only when __exit__ returns a false value: outside a journal the
                             # exception would have propagated, inside it now silently would not
@@ -377,9 +406,13 @@ def run_case(case: dict) -> dict:
     if bad is not None:
         res["error"] = f"classes are not pristine at the start of the run ({bad}): leaked from a previous run"
         return res
-    plain = run_plain(op_list)
     consumer = case.get("consumer", 0)
-    journaled, viol, journals = run_journaled(op_list, plan, stats, consumer, case.get("hook_raises_at", 0))
+    with warnings.catch_warnings():
+        if case.get("warnings_error"):
+            warnings.simplefilter("error")
+            stats["cfg_warnings_as_errors"] = 1
+        plain = run_plain(op_list)
+        journaled, viol, journals = run_journaled(op_list, plan, stats, consumer, case.get("hook_raises_at", 0), case.get("bulk", 0))
     hook_op = stats.pop("_hook_fault_op", None)
     if consumer == 2 and viol is None:
         sink = io.StringIO()
@@ -409,7 +442,10 @@ def run_case(case: dict) -> dict:
         if bad is not None:
             viol = {"clause": "classes-not-restored", "detail": f"{bad} differs from the pristine attribute after the run", "key": "classes-not-restored"}
     if viol is None:
-        again = run_plain(op_list)
+        with warnings.catch_warnings():
+            if case.get("warnings_error"):
+                warnings.simplefilter("error")
+            again = run_plain(op_list)
         if again != plain:
             viol = {"clause": "behaviour-changed-after-journal", "detail": "a plain replay after journaling differs from the first plain run", "key": "behaviour-changed-after-journal"}
     if viol is None:
@@ -430,6 +466,7 @@ def run_case(case: dict) -> dict:
     res["event_digest"] = digest((journaled, sorted(plan.items())))
     if viol is not None:
         res["violation"] = viol
+        _force_pristine()
         return res
     if stats.get("ops_inside_journal", 0) >= 5 and stats.get("entries_recorded", 0) > 0:
         res["distinct"] = [digest((op_list, sorted(plan.items())))]
